@@ -123,8 +123,8 @@ Example C16_print_to_self :      (* print_to(s, 1, "%s-%s", s, s) on "abc": piec
   spec_step [97; 98; 99] (OPrint 1 [PSelf; PLit [45]; PSelf]) = ([97; 97; 98; 99; 45; 97; 97; 98; 99; 45], SNat 10).
 Proof. vm_compute. reflexivity. Qed.
 
-Theorem C16_print_to_self_before_repair_undefined : forall b fa pos r,
-  m_print_to fa false b pos (PSelf :: r) = None.
+Theorem C16_print_to_self_before_repair_undefined : forall b fa cap hw pos r,
+  m_print_to fa false cap hw b pos (PSelf :: r) = None.
 Proof. exact format_self_old_shape_undefined. Qed.
 Print Assumptions C16_print_to_self_before_repair_undefined.
 
